@@ -163,7 +163,17 @@ func pathologicalWorld(src *choice.Src) *World {
 		cfg.Services = append(cfg.Services, gen.Svc{Name: "tagged", Value: "pkg.V", Tags: []gen.Tag{{Name: long}, {Name: "p", HasPrio: true, Prio: src.Range("prio", -1<<31, 1<<31-1)}}})
 	}
 	content := cfg.Y().Render(nil)
-	if src.Chance("patho.deep", 1, 4) {
+	if src.Chance("patho.bomb", 1, 6) {
+		// anchors and aliases: legal YAML, exponential when expanded naively
+		var sb strings.Builder
+		sb.WriteString("parameters:\n  a0: &a0 [x, y]\n")
+		n := src.Range("bomb.n", 3, 14)
+		for i := 1; i <= n; i++ {
+			fmt.Fprintf(&sb, "  a%d: &a%d [*a%d, *a%d, *a%d]\n", i, i, i-1, i-1, i-1)
+		}
+		content = sb.String()
+		w.Class = "alias-bomb"
+	} else if src.Chance("patho.deep", 1, 4) {
 		depth := src.Range("depth", 10, 3000)
 		content = "parameters:\n  deep: " + strings.Repeat("[", depth) + strings.Repeat("]", depth) + "\n"
 		w.Class = "deep-nesting"
